@@ -38,6 +38,7 @@ class ManualPublisher(Publisher, Subscription):
         self.requests = []
         self.emitted = []
         self.emitted_after_cancel = 0
+        self.how = None
 
     def subscribe(self, subscriber):
         self.subscriber = subscriber
@@ -66,6 +67,7 @@ class ManualPublisher(Publisher, Subscription):
         self.emitted.append(pkey(p))
         if complete:
             self.terminated = True
+            self.how = 'flag'
         self.world.log('emit', who=self.who, iid=self.iid, dir=self.direction, seq=self.seq - 1, complete=complete)
         self.subscriber.on_next(p, is_complete=complete)
         return True
@@ -74,6 +76,7 @@ class ManualPublisher(Publisher, Subscription):
         if not self.can_emit():
             return False
         self.terminated = True
+        self.how = 'complete'
         self.world.log('emit_terminal', who=self.who, iid=self.iid, dir=self.direction, ev='complete')
         self.subscriber.on_complete()
         return True
@@ -82,6 +85,7 @@ class ManualPublisher(Publisher, Subscription):
         if not self.can_emit():
             return False
         self.terminated = True
+        self.how = 'error'
         self.world.log('emit_terminal', who=self.who, iid=self.iid, dir=self.direction, ev='error')
         self.subscriber.on_error(RuntimeError('app-error'))
         return True
@@ -254,7 +258,7 @@ class Result:
 SID_BY = {'c': 1, 's': 2}    # first stream id opened by a client / server requester
 
 
-async def _execute(model, role, endpoint, history, spacing, rng, link_kind, frag=None, knobs=None):
+async def _execute(model, role, endpoint, history, spacing, rng, link_kind, frag=None, knobs=None, probe=None):
     from rsocket.payload import Payload
     rw = RawWorld(rng, endpoint, link_kind=link_kind, frag=frag, knobs=knobs)
     world = rw.world
@@ -432,8 +436,12 @@ async def _execute(model, role, endpoint, history, spacing, rng, link_kind, frag
             else:
                 peer.close('error')
 
+    res.executed = []
     for i, step in enumerate(history):
+        nskipped = len(res.skipped)
         await do(step)
+        if len(res.skipped) == nskipped:
+            res.executed.append(step)
         if spacing == 'settle':
             await asyncio.sleep(1.0)
         elif spacing == 'ticks':
@@ -450,6 +458,8 @@ async def _execute(model, role, endpoint, history, spacing, rng, link_kind, frag
         res.open_streams = res.partial_frames = None
     res.real_sent = rw.real_sent()
     res.close_calls = rw.handler.close_calls
+    if probe is not None:
+        res.probe = await probe(res)
     await rw.close()
     return res
 
